@@ -75,9 +75,9 @@ class C05(Property):
         'outside the open finding check_balance:float-roundoff-decimal-compositions; no theorem about float arithmetic',
         'the text level of ReactionSystem.from_string / Reaction.from_string is C12 s model; here the multiset semantics of the written terms '
         '(mergeTerms; C03.written_terms_spec) combined with accept_iff_balanced, tied by the from_string correspondence and oracle',
-        'Substance.composition_keys(skip_keys=...) (modelled as compositionKeysSkipping), the argument validation of '
-        'linear_dependencies(preferred) (modelled as checkPreferred) and the refusal of malformed reaction lines (C12 s text model): '
-        'correspondence and oracle only, no theorem',
+        'sortedness of composition_keys(skip_keys=...) and the left-over ValueError of linear_dependencies (a preferred key that no row can '
+        'serve): correspondence only (membership and the three argument refusals are theorem helper_specs); refusal of malformed reaction '
+        'lines is C12 s text model',
         'the constructor options checks= / dont_check= (modelled as constructorChecks; theorem only for the default selection) and the '
         'independence of one construction from earlier constructions in the same process (class-level default_checks never modified): '
         'multi-construction correspondence and oracle only',
